@@ -13,6 +13,7 @@ import (
 	"time"
 
 	"verif/harness/internal/abs"
+	"verif/harness/internal/ast"
 	"verif/harness/internal/genrun"
 	"verif/harness/internal/randschema"
 	"verif/harness/internal/sup"
@@ -265,6 +266,27 @@ func runWirePart(c *Ctx, work string, sp *WireSpec) (Coverage, int, error) {
 	if len(run.cases) == 0 {
 		return nil, 2, infra("no cases generated")
 	}
+	// C12: the schema of constants, enums, [flags] expressions and opcodes (Gen_Literals.tla) under every option set in play
+	litText := ""
+	if sp.Op == "generate" && sp.replaySchema == nil {
+		lc, lgr, err := genLiteralsCase(c)
+		if err != nil {
+			return nil, 2, err
+		}
+		gr.Distinct += lgr.Distinct
+		gr.Generated += lgr.Generated
+		litText = ast.Render(lc.Tokens, ast.Layouts[0])
+		masks := map[int][]string{}
+		for _, cs := range run.cases {
+			masks[cs.Mask] = cs.Opts
+		}
+		ls := &wireSchema{Sid: 900000, Defs: json.RawMessage("[]"), Tag: "constants, enums, flags, opcodes", Ctx: "consts", Ft: json.RawMessage(`{"k":"p","p":"bool"}`)}
+		run.schemas = append(run.schemas, ls)
+		bySid[ls.Sid] = len(run.schemas) - 1
+		for m, opts := range masks {
+			run.cases = append(run.cases, &wireCase{Sid: ls.Sid, Vi: 1, Opts: opts, Mask: m, Root: "Root", V: json.RawMessage("[]"), Enc: []int{}})
+		}
+	}
 	// 2. the real generator on every (schema, option set)
 	plans := map[string]*genrun.Plan{}
 	var planList []*genrun.Plan
@@ -281,6 +303,9 @@ func runWirePart(c *Ctx, work string, sp *WireSpec) (Coverage, int, error) {
 				return nil, 2, infra("schema %d: %v", cs.Sid, err)
 			}
 			p := &genrun.Plan{Pid: cs.Pid, Sid: cs.Sid, Schema: sch, Opts: cs.Opts}
+			if cs.Sid == 900000 {
+				p.Text = litText
+			}
 			plans[cs.Pid] = p
 			planList = append(planList, p)
 		}
